@@ -60,7 +60,7 @@ def props_of_disagreement(line):
 
 def run(prop, tier, seed, scratch, root):
     exe, err = build_conf(scratch)
-    row = {'function': 'parser::ParsedComponent::parse, parser::greeting (nom; assumed contract == spec_component / spec_greeting)',
+    row = {'function': 'parser::ParsedComponent::parse (alt-glue of the proved sub-parsers: ASSUMED contract == spec_component) and the ASSUMED nom combinator contracts of the stand-in crate (vx_nom.rs), exercised through the real nom: parser::ParsedComponent::parse, parser::greeting',
            'engine': 'native exhaustive small-scope differential run against replay/src/refparser.rs (proved == spec by Verus, unit R)', 'label': 'bounded',
            'violations': []}
     if exe is None:
